@@ -66,7 +66,7 @@ struct rd {
       consume<ROUTE, T, RD, VD>(A(mk(Ax{}, tr + 3 * I)...), aux, out);
     }
   }
-  static void run(const T *parent, const int *tr, const T *aux, T *out) { go(parent, tr, aux, out, std::make_index_sequence<sizeof...(Ax)>{}); }
+  static void run(const T *parent, const int *tr, const T *aux, T *out) { vf::ArmedThunk vf_armed_; go(parent, tr, aux, out, std::make_index_sequence<sizeof...(Ax)>{}); }
 };
 
 // ---------------------------------------------------------------------------------------------------------
@@ -153,7 +153,7 @@ struct sidx {
       else out[0] = A_(idx[I]...);
     }
   }
-  static void run(const T *parent, const int *idx, T *out) { go(parent, idx, out, std::make_index_sequence<PD::rank>{}); }
+  static void run(const T *parent, const int *idx, T *out) { vf::ArmedThunk vf_armed_; go(parent, idx, out, std::make_index_sequence<PD::rank>{}); }
 };
 
 template <class T>
@@ -180,7 +180,7 @@ void scalar(vf::Draw &d, vf::Ctx &ctx) { sidx_driver<T>(d, ctx, FORM, (int)PD::r
 // ---------------------------------------------------------------------------------------------------------
 // diag(A) on square tensors: diag(A)(i) == A(i,i).  FORM 0: Tensor<T,M> r = diag(A); 1: r = diag(A) + B; 2: sum(diag(A)); 3: r += diag(A)
 template <class T, int FORM, size_t M>
-void diag_thunk(const T *parent, const T *aux, T *out) {
+void diag_thunk(const T *parent, const T *aux, T *out) { vf::ArmedThunk vf_armed_;
   Tensor<T, M, M> A; std::copy(parent, parent + M * M, A.data());
   if constexpr (FORM == 0) { Tensor<T, M> r = diag(A); std::copy(r.data(), r.data() + M, out); }
   else if constexpr (FORM == 2) { out[0] = sum(diag(A)); }
